@@ -1,6 +1,6 @@
 """C11 -- ill-formed evaluations are rejected before anything runs."""
 from contracts import api, api_stages
-from ._api_common import TRUSTED_API, owner
+from ._api_common import TRUSTED_API, owner, _AnyApiClause
 
 ID = "C11"
 LEVEL = "other"
@@ -9,7 +9,7 @@ TRUSTED = TRUSTED_API
 ASSUMPTIONS = ["A-USER", "A-DET", "A-LOG", "A-FLOAT", "A-ALIAS"]
 LEVEL_TEXT = 'Deductive proof of the rejection-before-effects postconditions plus a call-graph effect analysis of the analysis stage; the prefix-overlap function and cycles through name resolution are bounded stand-ins.'
 DESIGN_REF = "5 (C11)"
-REPLAY = {}
+REPLAY = _AnyApiClause()
 owns = owner("C11")
 
 
